@@ -1437,13 +1437,22 @@ fn in_writer_fragment(c: &ClassFile) -> bool {
 /// `ClassWriteFull.CodeOk` (lean/FeatherModel/Lemmas/ClassWriteFullCode.lean, `RCodeOk`) on the harness' own resolved projection of the
 /// method body (label ids read as the index of the instruction carrying them; a dangling label = `Code.resolve` fails), as far as the
 /// conditions can fail for a tree duke read (operand ranges and valid names hold by the types / the reader's checks):
-/// no `invokedynamic`, no `Dynamic` constant, `Uninitialized` labels of stack map frames on instructions, every target an instruction, at most 32767 bytes by the syntactic
+/// `Dynamic` constants nested within the reader's depth limit for bootstrap arguments, `Uninitialized` labels of stack map frames on instructions, every target an instruction, at most 32767 bytes by the syntactic
 /// bound (longest form of every instruction), exception ranges `start < n`, `end <= n`, `handler < n`, line entries on instructions,
 /// local variables `None` or non-empty with exactly one of descriptor / signature per entry and descriptor entries first, ranges
 /// `start < n`, `start <= end <= n`, type-annotation targets on instructions, no unknown attributes, fewer than 65535 label references
 fn code_in_fragment(c: &duke::tree::method::code::Code) -> bool {
 	let Ok(s) = fvh::c01facts::code(c, true) else { return false };
 	rcode_ok(&s).unwrap_or(false)
+}
+
+/// nesting of `Dynamic` constants through bootstrap arguments (`ldepth`)
+fn loadable_depth(l: &Sexp) -> R<usize> {
+	let l = l.as_list()?;
+	if l[0].as_atom()? != "dyn" { return Ok(0) }
+	let mut d = 0;
+	for a in l[4].as_list()? { d = d.max(loadable_depth(a)?); }
+	Ok(d + 1)
 }
 
 fn rcode_ok(s: &Sexp) -> R<bool> {
@@ -1475,14 +1484,16 @@ fn rcode_ok(s: &Sexp) -> R<bool> {
 		let mut targets: Vec<usize> = Vec::new();
 		size += match i[0].as_atom()? {
 			"simple" => 1, "bipush" => 2, "sipush" => 3,
-			"ldc" => { if i[1].as_list()?[0].as_atom()? == "dyn" { return Ok(false) } 3 }
+			"ldc" => { if loadable_depth(&i[1])? >= 17 { return Ok(false) } 3 }
 			"load" | "store" => 4, "iinc" => 6, "ret" => 4,
 			"branch" => { targets.push(i[2].as_nat()?); 8 }
 			"goto" | "jsr" => { targets.push(i[1].as_nat()?); 5 }
 			"tableswitch" => { targets.push(i[1].as_nat()?); for t in i[4].as_list()? { targets.push(t.as_nat()?); } 16 + 4 * i[4].as_list()?.len() }
 			"lookupswitch" => { targets.push(i[1].as_nat()?); for kt in i[2].as_list()? { targets.push(kt.as_list()?[1].as_nat()?); } 12 + 8 * i[2].as_list()?.len() }
 			"field" | "invokevirtual" | "invokespecial" | "invokestatic" | "new" | "anewarray" | "checkcast" | "instanceof" => 3,
-			"invokeinterface" => 5, "invokedynamic" => return Ok(false), "newarray" => 2, "multianewarray" => 4,
+			"invokeinterface" => 5,
+			"invokedynamic" => { for a in i[4].as_list()? { if loadable_depth(a)? >= 16 { return Ok(false) } } 5 }
+			"newarray" => 2, "multianewarray" => 4,
 			other => return Err(format!("instruction {other}")),
 		};
 		if targets.iter().any(|&t| t >= n) { return Ok(false) }
@@ -2401,7 +2412,7 @@ fn gen_class_write(r: &mut Rng, thorough: bool, out: &mut Out) {
 			out.op("oracle-class-write-read", &[hex(&bytes)]);
 		}
 	}
-	// classes of the fragment with method bodies: stack map frames kept in every second class, `invokedynamic` / `Dynamic` constants replaced by `nop`, no unknown
+	// classes of the fragment with method bodies: stack map frames kept in every second class, `invokedynamic` / `Dynamic` constants kept, no unknown
 	// attributes of `Code`, local variables with descriptor entries first; half of them assembled in source order (then the tables are
 	// read back in the order the writer emits them), the others under a random encoding (forms, pool order, attribute order, split tables)
 	let n_code = if thorough { 4000 } else { 250 };
@@ -2414,14 +2425,15 @@ fn gen_class_write(r: &mut Rng, thorough: bool, out: &mut Out) {
 		let mut f = c01gen::class(r, &cfg, &mut st);
 		if !f.methods.iter().any(|m| m.code.is_some()) { continue }
 		if r.chance(1, 2) { f.records.clear(); f.module = None; }
-		let (mut n_insns, mut n_branch, mut n_exc, mut n_switch, mut n_pool, mut n_frames) = (0u64, 0u64, 0u64, 0u64, 0u64, 0u64);
+		let (mut n_insns, mut n_branch, mut n_exc, mut n_switch, mut n_pool, mut n_frames, mut n_indy, mut n_condy) = (0u64, 0u64, 0u64, 0u64, 0u64, 0u64, 0u64, 0u64);
 		let keep_frames = r.chance(1, 2);
 		for m in &mut f.methods {
 			let Some(c) = &mut m.code else { continue };
 			for (fr, i) in &mut c.insns {
 				if !keep_frames { *fr = None; }
 				if fr.is_some() { n_frames += 1; }
-				if matches!(i, fvh::c01model::GInsn::InvokeDynamic { .. } | fvh::c01model::GInsn::Ldc(fvh::c01model::GLoadable::Dyn { .. })) { *i = fvh::c01model::GInsn::Simple(0); }
+				if matches!(i, fvh::c01model::GInsn::InvokeDynamic { .. }) { n_indy += 1; }
+				if matches!(i, fvh::c01model::GInsn::Ldc(fvh::c01model::GLoadable::Dyn { .. })) { n_condy += 1; }
 				n_insns += 1;
 				match i {
 					fvh::c01model::GInsn::Branch(..) | fvh::c01model::GInsn::Goto(_) | fvh::c01model::GInsn::Jsr(_) => n_branch += 1,
@@ -2451,6 +2463,8 @@ fn gen_class_write(r: &mut Rng, thorough: bool, out: &mut Out) {
 		out.stats.add("class-write:fragment-code:pool-operands", n_pool);
 		out.stats.add("class-write:fragment-code:exception-rows", n_exc);
 		out.stats.add("class-write:fragment-code:stack-map-frames", n_frames);
+		out.stats.add("class-write:fragment-code:invokedynamic", n_indy);
+		out.stats.add("class-write:fragment-code:ldc-Dynamic", n_condy);
 		out.op("class-write", &[hex(&bytes)]);
 		out.op("oracle-class-write-read", &[hex(&bytes)]);
 	}
